@@ -64,12 +64,14 @@ Proof.
   - replace (acc + 0) with acc by ring. destruct b; reflexivity.
   - rewrite IH. replace (acc + (x + sumlist RO r)) with (acc + x + sumlist RO r) by ring. reflexivity.
 Qed.
+Lemma map_tl' {A B} (f : A -> B) l : map f (tl l) = tl (map f l).
+Proof. destruct l; reflexivity. Qed.
 (* t of a concatenation: the second part is shifted by the duration of the first *)
 Theorem times_app a b :
   times RO (a ++ b) = times RO a ++ map (fun x => tau_of_dt RO a + x) (tl (times RO b)).
 Proof.
   unfold times, tau_of_dt. simpl. rewrite cumsum_from_app. f_equal.
-  rewrite cumsum_from_shift. rewrite map_tl. f_equal. apply map_ext. intros. ring.
+  rewrite cumsum_from_shift. rewrite <- map_tl'. apply map_ext. intros. ring.
 Qed.
 
 Lemma sumlist_concat (dtss : list (list R)) : sumlist RO (List.concat dtss) = sumlist RO (map (sumlist RO) dtss).
@@ -150,11 +152,11 @@ Proof.
     change (firstn (S (S n)) (cumsum_from RO acc (x :: r))) with (acc :: firstn (S n) (cumsum_from RO (acc + x) r)).
     rewrite IH. reflexivity.
 Qed.
-Theorem slice_times a b dts : (a <= length dts)%nat ->
+Theorem slice_times a b dts : (a <= length dts)%nat -> (a <= b)%nat ->
   times RO (slice a b dts) = map (fun x => x - nth a (times RO dts) 0) (slice a (S b) (times RO dts)).
 Proof.
-  intros Ha. unfold slice, times. simpl.
-  replace (S b - a)%nat with (S (b - a)) by lia.
+  intros Ha Hab. unfold slice, times.
+  replace (S b - a)%nat with (S (b - a)) by lia. simpl o0.
   rewrite cumsum_from_skipn by assumption. rewrite cumsum_from_firstn.
   rewrite (cumsum_from_shift (nth a _ 0)). rewrite map_map.
   rewrite <- (map_id (cumsum_from RO 0 (firstn (b - a) (skipn a dts)))) at 1.
